@@ -36,6 +36,8 @@ EXTENDS Integers, Sequences, FiniteSets, TLC
 CONSTANTS Thorough,      \* BOOLEAN: bigger lattice
           MaxSegs,       \* 64
           MaxBytes,      \* 65535
+          CrossSession,  \* BOOLEAN: FALSE = packets are ordered per (session, flow) (the reading used); TRUE = per flow in
+                         \* (epoch, counter) order across sessions (stronger reading, for experiments)
           Design         \* "strict": a UDP length field that disagrees with the IP length is unparseable;
                          \* "aswritten": parseTail of udp_coalesce.go (accepts a shorter UDP length)
 
@@ -60,7 +62,7 @@ TxBefore(a, b) == a.sess < b.sess \/ (a.sess = b.sess /\ a.ctr < b.ctr)
 
 \* packets whose relative order the statement fixes: same tunnel session, same flow.  A later fragment carries no ports;
 \* it is ordered only against the other later fragments between the same addresses.
-OrderKey(p) == <<p.sess, p.proto, p.flow, p.shape = "frag2">>
+OrderKey(p) == <<IF CrossSession THEN 0 ELSE p.sess, p.proto, p.flow, p.shape = "frag2">>
 \* "pure TCP ACKs may trail later data"
 PureAck(p) == /\ p.proto = "tcp" /\ p.len = 0 /\ "ACK" \in p.flags
               /\ p.flags \cap {"SYN", "FIN", "RST"} = {} /\ p.shape # "frag2"
@@ -85,13 +87,17 @@ FlatSegs(o) == IF o = <<>> THEN <<>> ELSE Head(o).segs \o FlatSegs(Tail(o))
 JudgeFlat(b, o, flat) ==
     LET n == Len(b)
         m == Len(flat)
+        geo == { w \in 1..Len(o) : o[w].gso /\ GeoClass(o[w]) # "ok" }
         at(i) == { k \in 1..m : flat[k].id = i }
         lost == { i \in 1..n : at(i) = {} }
         dup == { i \in 1..n : Cardinality(at(i)) > 1 }
         alien == { k \in 1..m : flat[k].id \notin 1..n }
         bad == { k \in 1..m : ~flat[k].ok }
     IN
-    IF lost # {} THEN <<"lost", "ok", "ok", "ok", CHOOSE i \in lost : \A j \in lost : i <= j>>
+    \* a write the kernel refuses comes first: whatever it carries is lost with it
+    IF geo # {} THEN LET w == CHOOSE w \in geo : \A x \in geo : w <= x
+                     IN <<"ok", "ok", "ok", GeoClass(o[w]), IF o[w].segs = <<>> THEN 0 ELSE o[w].segs[1].id>>
+    ELSE IF lost # {} THEN <<"lost", "ok", "ok", "ok", CHOOSE i \in lost : \A j \in lost : i <= j>>
     ELSE IF dup # {} THEN <<"duplicated", "ok", "ok", "ok", CHOOSE i \in dup : \A j \in dup : i <= j>>
     ELSE IF alien # {} THEN <<"alien", "ok", "ok", "ok", 0>>
     ELSE IF bad # {} THEN <<"ok", "altered", "ok", "ok", flat[CHOOSE k \in bad : \A j \in bad : k <= j].id>>
@@ -100,11 +106,8 @@ JudgeFlat(b, o, flat) ==
         key == Tup([i \in 1..n |-> OrderKey(b[i])])
         inv == { i \in 1..n : \E j \in 1..n : /\ key[i] = key[j] /\ TxBefore(b[i], b[j])
                                                /\ pos[i] > pos[j] /\ ~MayTrail(b[i], b[j]) }
-        geo == { w \in 1..Len(o) : o[w].gso /\ GeoClass(o[w]) # "ok" }
     IN
     IF inv # {} THEN <<"ok", "ok", "reordered", "ok", CHOOSE i \in inv : \A j \in inv : i <= j>>
-    ELSE IF geo # {} THEN LET w == CHOOSE w \in geo : \A x \in geo : w <= x
-                          IN <<"ok", "ok", "ok", GeoClass(o[w]), IF o[w].segs = <<>> THEN 0 ELSE o[w].segs[1].id>>
     ELSE <<"ok", "ok", "ok", "ok", 0>>
 Judge(b, o) == JudgeFlat(b, o, FlatSegs(o))
 Good == <<"ok", "ok", "ok", "ok", 0>>
@@ -257,7 +260,7 @@ TcpKinds ==
       T(1, "plain", FA, 100, "cont", "df", 0, 0, 1), T(1, "plain", AC, 100, "cont", "df", 0, 0, 0),
       T(1, "plain", SY, 0, "cont", "df", 0, 0, 0),
       T(1, "plain", A, 0, "cont", "df", 0, 0, 1),    T(1, "plain", A, 50, "cont", "df", 0, 0, 1),
-      T(1, "plain", A, 200, "cont", "df", 0, 0, 0),  T(1, "plain", A, 30000, "cont", "df", 0, 0, 0),
+      T(1, "plain", A, 200, "cont", "df", 0, 0, 0),  T(1, "plain", A, 32750, "cont", "df", 0, 0, 0),
       T(1, "plain", A, 100, "gap", "df", 0, 0, 1),   T(1, "plain", A, 100, "back", "df", 0, 0, 0),
       T(1, "plain", A, 100, "cont", "inc", 0, 0, 1), T(1, "plain", A, 100, "cont", "jump", 0, 0, 0),
       T(1, "plain", A, 100, "cont", "df", 1, 0, 1),  T(1, "plain", A, 100, "cont", "df", 0, 1, 0),
@@ -269,21 +272,21 @@ TcpKinds ==
     (IF Thorough THEN
     { T(1, "plain", RA, 0, "cont", "df", 0, 0, 0),   T(1, "plain", UA, 100, "cont", "df", 0, 0, 0),
       T(1, "plain", PAE, 100, "cont", "df", 0, 0, 0), T(3, "plain", A, 100, "cont", "df", 0, 0, 0),
-      T(1, "plain", A, 100, "cont", "df", 2, 0, 0),  T(1, "plain", A, 30000, "cont", "inc", 0, 0, 0),
+      T(1, "plain", A, 100, "cont", "df", 2, 0, 0),  T(1, "plain", A, 32750, "cont", "inc", 0, 0, 0),
       T(1, "plain", FA, 0, "cont", "df", 0, 0, 0),   T(1, "plain", A, 100, "gap", "inc", 1, 0, 0),
       T(1, "plain", PA, 0, "cont", "df", 0, 0, 0),   T(2, "frag", A, 100, "cont", "df", 0, 0, 0) } ELSE {})
 
 U(flow, shape, len, idm, tos, hv, core) == <<"udp", flow, shape, NOF, len, "cont", idm, tos, hv, core>>
 UdpKinds ==
     { U(1, "plain", 100, "df", 0, 0, 1),  U(2, "plain", 100, "df", 0, 0, 1), U(1, "plain", 0, "df", 0, 0, 1),
-      U(1, "plain", 50, "df", 0, 0, 1),   U(1, "plain", 200, "df", 0, 0, 1), U(1, "plain", 30000, "df", 0, 0, 0),
+      U(1, "plain", 50, "df", 0, 0, 1),   U(1, "plain", 200, "df", 0, 0, 1), U(1, "plain", 32750, "df", 0, 0, 0),
       U(1, "plain", 100, "inc", 0, 0, 1), U(1, "plain", 100, "jump", 0, 0, 0), U(1, "plain", 100, "df", 1, 0, 1),
       U(1, "plain", 100, "df", 0, 1, 0),  U(1, "opt", 100, "df", 0, 0, 0),   U(1, "frag", 100, "inc", 0, 0, 1),
       U(2, "frag2", 100, "inc", 0, 0, 0), U(1, "trunc", 100, "df", 0, 0, 0), U(1, "trail", 100, "df", 0, 0, 0),
       U(1, "l4short", 100, "df", 0, 0, 1), U(1, "l4short", 50, "df", 0, 0, 0) } \cup
     (IF Thorough THEN
     { U(3, "plain", 100, "df", 0, 0, 0),  U(1, "plain", 100, "df", 2, 0, 0), U(2, "plain", 0, "df", 0, 0, 0),
-      U(1, "plain", 30000, "inc", 0, 0, 0), U(2, "opt", 100, "df", 0, 0, 0), U(2, "l4short", 100, "inc", 0, 0, 0) } ELSE {})
+      U(1, "plain", 32750, "inc", 0, 0, 0), U(2, "opt", 100, "df", 0, 0, 0), U(2, "l4short", 100, "inc", 0, 0, 0) } ELSE {})
 
 O(flow, shape, len) == <<"other", flow, shape, NOF, len, "cont", "df", 0, 0, 1>>
 MixKinds ==
@@ -334,13 +337,22 @@ Bites(b, st, srt, good, g) == LET m == IF g = "nocounter" THEN Machine(b, st, g)
 VARIABLES fam, lane, pk, arr, exp, bites, unsure
 vars == <<fam, lane, pk, arr, exp, bites, unsure>>
 
-\* quick: batches of 3 = core kinds in every session pattern, or one packet outside the core in one session
-\* (mixed-lane batches of 3: IPv4 only); thorough: every batch of 3, batches of 4 as quick's batches of 3
+\* quick: batches of 3 = first packet of a core kind and all core kinds in every session pattern, or one packet outside
+\* the core in one session (mixed-lane batches of 3: IPv4 only).
+\* thorough: every batch of 3 in one session, at most one packet outside the core in the other session patterns; batches
+\* of 4 as quick's batches of 3 (one packet outside the core: IPv4 only).
+OneSession(q) == q[Len(q)][2] = 1
 Admit(q) == \/ Len(q) <= 2
-             \/ (Thorough /\ Len(q) = 3)
-             \/ /\ q[1][14] = 1
-                /\ NonCore(q) = 0 \/ (NonCore(q) = 1 /\ q[Len(q)][2] = 1)
-                /\ lane = "mix" => fam = 4
+            \/ /\ Len(q) = 3 /\ Thorough
+               /\ OneSession(q) \/ NonCore(q) <= 1
+            \/ /\ Len(q) = 3 /\ ~Thorough
+               /\ q[1][14] = 1
+               /\ NonCore(q) = 0 \/ (NonCore(q) = 1 /\ OneSession(q))
+               /\ lane = "mix" => fam = 4
+            \/ /\ Len(q) = 4
+               /\ q[1][14] = 1
+               /\ NonCore(q) = 0 \/ (NonCore(q) = 1 /\ OneSession(q) /\ fam = 4)
+               /\ lane = "mix" => fam = 4
 
 
 Init == /\ fam \in {4, 6} /\ lane \in Lanes
